@@ -119,6 +119,27 @@ def copy_true_case(col, via, seed):
                              "input": {"built_via": via, "seed": seed}})
 
 
+def restored_state_case(col, auto_update, seed):
+    """current values put in place by assigning a stored state (after the model had been updated at OTHER values): x ~ N(2 mu + 1, 0.01) with mu skipped is
+    drawn around 2 mu + 1 at the RESTORED mu"""
+    mu = lsl.param(np.float32(0.0), lsl.Dist(tfd.Normal, loc=0.0, scale=10.0), name="mu")
+    eta = lsl.Var(lsl.Calc(lambda m_: 2.0 * m_ + 1.0, mu), name="eta")
+    x = lsl.obs(np.zeros(3, np.float32), lsl.Dist(tfd.Normal, loc=eta, scale=0.01), name="x")
+    model = lsl.GraphBuilder().add(x).build_model()
+    model.vars["mu"].value = np.float32(-3.0)
+    saved = model.state
+    model.vars["mu"].value = np.float32(4.0)
+    model.update()
+    model.auto_update = auto_update
+    model.state = saved
+    model.simulate(jax.random.PRNGKey(seed), skip=["mu"])
+    model.update()
+    xs = np.asarray(model.vars["x"].value)
+    ok = float(model.vars["mu"].value) == -3.0 and np.all(np.abs(xs - (-5.0)) < 0.2)
+    col.add(None if ok else {"sig": "native::simulate::after_state_restore", "what": f"state with mu = -3 restored after an update at mu = 4 (auto_update={auto_update}), simulate(skip=['mu']): x = {xs.round(3).tolist()}, "
+                             f"expected about 2*(-3)+1 = -5; mu = {float(model.vars['mu'].value)}", "input": {"auto_update": auto_update, "seed": seed}})
+
+
 def shape_cases(col, seed):
     """drawn values keep the shape of the current values for per_obs on/off, leading sample dimensions, batch and event dimensions"""
     import tensorflow_probability.substrates.jax.distributions as tfd_
@@ -143,7 +164,7 @@ def shape_cases(col, seed):
 
 
 def independence_case(col, auto_update, seed):
-    """every distributed variable is drawn with its OWN child of the seed: models entered with outdated nodes (value assigned while auto-update was off); models built with copy=True (the user's originals stay untouched); shapes kept for per_obs on / off with leading sample, batch and event dimensions; two i.i.d. siblings differ, a child's noise is not its parent's"""
+    """every distributed variable is drawn with its OWN child of the seed: models entered with outdated nodes (value assigned while auto-update was off); models built with copy=True (the user's originals stay untouched); simulate(skip=parent) after a stored state was assigned back; shapes kept for per_obs on / off with leading sample, batch and event dimensions; two i.i.d. siblings differ, a child's noise is not its parent's"""
     a = lsl.param(np.zeros(4, np.float32), lsl.Dist(tfd.Normal, loc=0.0, scale=1.0), name="a")
     b = lsl.param(np.zeros(4, np.float32), lsl.Dist(tfd.Normal, loc=0.0, scale=1.0), name="b")
     x = lsl.obs(np.zeros(4, np.float32), lsl.Dist(tfd.Normal, loc=a, scale=1.0), name="x")
@@ -170,6 +191,11 @@ def bounded(tier, seed):
             copy_true_case(col, via, seed + 5)
         except Exception as e:
             col.add({"sig": f"native::simulate::exception::{type(e).__name__}", "what": str(e)[:200], "input": {"scenario": "copy=True", "via": via}})
+    for au in (True, False):
+        try:
+            restored_state_case(col, au, seed + 11)
+        except Exception as e:
+            col.add({"sig": f"native::simulate::exception::{type(e).__name__}", "what": str(e)[:200], "input": {"scenario": "restored state", "auto_update": au}})
     try:
         shape_cases(col, seed + 9)
     except Exception as e:
@@ -196,5 +222,5 @@ def bounded(tier, seed):
     return {"evaluations": col.evals, "distinct_nontrivial": len(combos),
             "rule": (CORE_RULE + "; " + "BOUNDED: models mu ~ N(1000, .001), log_sigma ~ N(-5, .001) (current 3.0), sigma = exp(log_sigma) cached, y (4x3) ~ N(loc, sigma) with loc = mu directly / through a weak "
                      "variable / through a bare Calc / positional mu with keyword scale; both auto-update settings; skip sets {}, {mu}, {y}: values near the NEW parents, shapes kept, skipped "
-                     f"untouched, nothing outdated after update, same seed same result, result independent of auto_update; models entered with outdated nodes (value assigned while auto-update was off); models built with copy=True (the user's originals stay untouched); shapes kept for per_obs on / off with leading sample, batch and event dimensions; two i.i.d. siblings and a child must not share their noise; a hierarchy with a re-parameterised (Var.transform, instance and default bijector) variable in the middle. seeds {seed}.."),
+                     f"untouched, nothing outdated after update, same seed same result, result independent of auto_update; models entered with outdated nodes (value assigned while auto-update was off); models built with copy=True (the user's originals stay untouched); simulate(skip=parent) after a stored state was assigned back; shapes kept for per_obs on / off with leading sample, batch and event dimensions; two i.i.d. siblings and a child must not share their noise; a hierarchy with a re-parameterised (Var.transform, instance and default bijector) variable in the middle. seeds {seed}.."),
             "samples": [{"variant": "calc", "auto_update": False, "skip": []}], "exhaustive": False, "violations": col.violations}
